@@ -1,13 +1,14 @@
 // Harness for property C02: table replacement is atomic, keeps the last good table, never
 // crashes.  Runs the REAL fabio code:
-//   (i)   route.NewTable / route.NewTableCustom on generated and mutated configuration texts /
-//         definition lists, and Table.Lookup on the result (panics recovered and reported as the
-//         observable);
-//   (ii)  the real main.watchBackend and the real custom backend (registry/custom) through the
-//         driver /repo/verif_c02_test.go, in a separate `go test` process because the update
-//         loops have no recover: a crash kills that process, which is what is observed;
-//   (iii) a forced schedule of SetTable / GetTable / Lookup on the real cell, and a stress run
-//         (writer alternating two tables, readers taking GetTable() once) under the race detector.
+//
+//	(i)   route.NewTable / route.NewTableCustom on generated and mutated configuration texts /
+//	      definition lists, and Table.Lookup on the result (panics recovered and reported as the
+//	      observable);
+//	(ii)  the real main.watchBackend and the real custom backend (registry/custom) through the
+//	      driver /repo/verif_c02_test.go, in a separate `go test` process because the update
+//	      loops have no recover: a crash kills that process, which is what is observed;
+//	(iii) a forced schedule of SetTable / GetTable / Lookup on the real cell, and a stress run
+//	      (writer alternating two tables, readers taking GetTable() once) under the race detector.
 package main
 
 import (
